@@ -497,7 +497,7 @@ MockField(P, k, c, ex) ==
                 [] c \in {"oneof", "oneof2"} -> InOneof(FRef("v", "v", 1, kind, "one", ref), "o")
                 [] OTHER -> FRef("v", "v", 1, kind, c, ref)
   IN [base EXCEPT !.ann.examples = ExamplesFor(k, ex)]
-MockNestings == {"flat", "nested", "mapvalue", "recursive", "two_services", "protonested", "imported"}
+MockNestings == {"flat", "nested", "mapvalue", "recursive", "two_services", "protonested", "imported", "xpkg"}
 C20Case(P, k, c, ex, nest) ==
   LET f == MockField(P, k, c, ex)
       do(out) == Method("Do", FN(P, "In"), out, TRUE, Parts(TRUE, <<Lit("do")>>, FALSE), "POST")
@@ -512,6 +512,14 @@ C20Case(P, k, c, ex, nest) ==
                        <<Msg("Inner", FN(P, "R.Inner"), <<f>>)>>),
                   \* a second message with the same short name as the nested one and other examples
                   Msg("Inner", FN(P, "Inner"), <<[F("v", "v", 1, "string", "one") EXCEPT !.ann.examples = <<"decoy">>]>>)>>, FN(P, "R"))
+       [] nest = "xpkg" ->   \* message types of another Go package as singular, map-value and oneof-member fields
+            Schema(<<File(P \o "x/types.proto", Pkg(P \o "x"), GoPkg(P \o "x"), TRUE, <<>>, <<>>,
+                          <<Msg("Inner", FN(P \o "x", "Inner"), <<f>>), Msg("Child", FN(P \o "x", "Child"), <<F("x", "x", 1, "string", "one")>>)>>, <<EnumPlain>>),
+                     File(P \o "/svc.proto", Pkg(P), GoPkg(P), TRUE, <<P \o "x/types.proto">>, <<Svc(P, <<do(FN(P, "R"))>>)>>,
+                          <<In(P), MsgO("R", FN(P, "R"), <<FRef("inner", "inner", 1, "message", "one", FN(P \o "x", "Inner")),
+                                                          FMap("by", "by", 2, "string", "message", FN(P \o "x", "Inner")),
+                                                          InOneof(FRef("w", "w", 3, "message", "one", FN(P \o "x", "Inner")), "o"),
+                                                          FRef("many", "many", 4, "message", "rep", FN(P \o "x", "Inner"))>>, <<Oneof("o", FALSE, "", FALSE)>>)>>, <<>>)>>)
        [] nest = "imported" ->
             Schema(<<File(P \o "/types.proto", Pkg(P), GoPkg(P), TRUE, <<>>, <<>>, <<Msg("Inner", FN(P, "Inner"), <<f>>), Child(P)>>, <<EnumPlain>>),
                      File(P \o "/svc.proto", Pkg(P), GoPkg(P), TRUE, <<P \o "/types.proto">>, <<Svc(P, <<do(FN(P, "R"))>>)>>,
